@@ -1116,7 +1116,24 @@ map_string (svalue_t * arg, int num_arg)
 #endif
 
 #ifdef F_SORT_ARRAY
-static function_to_call_t *sort_array_ftc;
+/* The comparison function of the sort in progress. Sorts nest (a comparison
+ * may sort), and a comparison may leave by an error that an LPC catch() around
+ * an inner sort takes: the contexts are a heap-allocated chain, and an error
+ * handler on the value stack unlinks a context when its sort is unwound. */
+typedef struct sort_array_ctx_s {
+  function_to_call_t ftc;
+  struct sort_array_ctx_s *outer;
+} sort_array_ctx_t;
+
+static sort_array_ctx_t *sort_array_ctx;
+#define sort_array_ftc (&sort_array_ctx->ftc)
+
+static void leave_sort_array_ctx (void) {
+  sort_array_ctx_t *ctx = sort_array_ctx;
+
+  sort_array_ctx = ctx->outer;
+  FREE (ctx);
+}
 
 #define COMPARE_NUMS(x,y) (x < y ? -1 : (x > y ? 1 : 0))
 
@@ -1293,18 +1310,24 @@ f_sort_array (void)
          * to it in a global, being careful to save and restore the old
          * value.
          */
-        function_to_call_t ftc, *old_ptr;
+        function_to_call_t ftc;
+        sort_array_ctx_t *ctx;
 
-        old_ptr = sort_array_ftc;
-        sort_array_ftc = &ftc;
-        process_efun_callback (1, &ftc, F_SORT_ARRAY);
+        process_efun_callback (1, &ftc, F_SORT_ARRAY);	/* addresses the arguments relative to sp; can raise an error */
+        ctx = ALLOCATE (sort_array_ctx_t, TAG_TEMPORARY, "f_sort_array");
+        ctx->ftc = ftc;
+        ctx->outer = sort_array_ctx;
+        sort_array_ctx = ctx;
+        (++sp)->type = T_ERROR_HANDLER;
+        sp->u.error_handler = leave_sort_array_ctx;
 
         tmp = copy_array (tmp);
         push_refed_array (tmp);	/* the callback can raise an error */
         quickSort ((char *) tmp->item, tmp->size, sizeof (tmp->item),
                    sort_array_cmp);
         sp--;
-        sort_array_ftc = old_ptr;
+        sp--;			/* the error handler */
+        leave_sort_array_ctx ();
         break;
       }
     }
